@@ -51,6 +51,8 @@ vars == <<stage, shape, c>>
 Init == stage = 0 /\ shape = <<>> /\ c = [kind |-> "seed"]
 
 Shapes(n) == [1 .. n -> 0 .. MaxExt]
+RECURSIVE SumSeq(_)
+SumSeq(q) == IF q = <<>> THEN 0 ELSE Head(q) + SumSeq(Tail(q))
 Clauses(cs) ==
     {"total", "printed"} \cup
     (IF cs.kind = "array" /\ Len(cs.shape) \in 1 .. 4 /\ (cs.mode = 0 \/ Len(cs.shape) = 2) THEN {"faithful"} ELSE {})
@@ -66,7 +68,9 @@ Next ==
              /\ \E d \in Dtypes, nd \in Decimals, tp \in {0, 1}, np \in {0, 1} :
                   c' = [kind |-> "array", shape |-> shape, dtype |-> d, nd |-> nd, tpar |-> tp, noprint |-> np, mode |-> 0]
           \/ /\ Len(shape) > FullAxes
-             /\ \E d \in {"float"}, nd \in {3}, tp \in {0, 1} :
+             \* beyond FullAxes: float data, and the decimals spread over the shapes (every shape gets the values of
+             \* Decimals in its residue class mod 3, so each nd meets many shapes of every rank)
+             /\ \E d \in {"float"}, nd \in {x \in Decimals : x % 3 = SumSeq(shape) % 3}, tp \in {0, 1} :
                   c' = [kind |-> "array", shape |-> shape, dtype |-> d, nd |-> nd, tpar |-> tp, noprint |-> 1, mode |-> 0]
           \/ /\ Len(shape) = 2 /\ shape[1] > 0 /\ shape[2] > 0     \* LaTeX mode: what it is documented for
              /\ \E nd \in Decimals : c' = [kind |-> "array", shape |-> shape, dtype |-> "float", nd |-> nd,
